@@ -71,3 +71,48 @@ func H19b3_twin() {
 		vAssert(false, "H19b3_twin.reach: reachable")
 	}
 }
+
+// H19b4: the other way a hostile peer can make a filter inconsistent: a key sits, pure, in a bucket that is NOT
+// one of its own six buckets (so deleting the key never touches that bucket and it stays pure pass after pass),
+// while the key's own buckets hold other material. Key A (even hash) is placed in one odd bucket (every choice);
+// its own even buckets hold key D everywhere and key C in an arbitrary subset (64 subsets). Decode must end
+// (ErrDecodeLoop or ErrDecodeNotPossible or success), never keep peeling.
+func H19b4() {
+	hPeels = 0
+	f := NewIblt(12)
+	a, ah := hKeyWithParity(f, 0, 1)
+	c, ch := hKeyWithParity(f, 0, 2)
+	d, dh := hKeyWithParity(f, 0, 3)
+	vTag("foreign_bucket")
+	j := uint32(2*vChoice(6) + 1)
+	f.buckets[j].insert(a, ah)
+	for _, idx := range []uint32{0, 2, 4, 6, 8, 10} {
+		f.buckets[idx].insert(d, dh)
+		vTag("garbage")
+		if vBool() {
+			f.buckets[idx].insert(c, ch)
+		}
+	}
+	hPeels = 0
+	_, _, err := f.Decode()
+	if err == nil {
+		vCover("decoded")
+		vAssert(f.Empty(), "H19b4.decode_ok_means_empty: Decode returned no error but the table is not empty")
+	} else {
+		vCover("rejected")
+	}
+}
+
+func H19b4_twin() {
+	hPeels = 0
+	f := NewIblt(12)
+	a, ah := hKeyWithParity(f, 0, 1)
+	d, dh := hKeyWithParity(f, 0, 3)
+	f.buckets[uint32(2*vChoice(6)+1)].insert(a, ah)
+	for _, idx := range []uint32{0, 2, 4, 6, 8, 10} {
+		f.buckets[idx].insert(d, dh)
+	}
+	if _, _, err := f.Decode(); err == ErrDecodeLoop {
+		vAssert(false, "H19b4_twin.reach: reachable")
+	}
+}
